@@ -19,7 +19,10 @@ PROP = {
                    "recomputes every hash must have the identical layout); layout constants are re-extracted from the headers. pvCalcShortHash, pvGetProbeShift, pvSetHashProbe, pvGetCount, IsFull, GetHashCodePart and the byte compaction of Remove of BucketLimP4, pvCalcShortHash, pvGetProbeShift, pvGetCount, IsFull, the metadata part of AddCrt / Remove and GetHashCodePart of BucketOpen2N2, pvGetHashState (4 widths) and GetHashCodePart of BucketOne are additionally TRANSLATED from the header text on every run (tools/translate.py, tools/trspecs/HashMeta.py; index functions: tools/trspecs/HashProbe.py) and proved equal to the model functions (Proof/TrEqHashMeta.lean); reconstruction, bits-suffice, chain and still-found theorems are proved for the generated definitions themselves (C12_*_translated)."
                    " Second wave (tools/trspecs/Wave2Meta.py, Proof/TrEqWave2Bucket.lean): the metadata writes of all five paths of BucketLimP4::AddCrt (null bucket + pvAdd0, "
                    "case 1 / case 2 / default of the switch + pvAdd<k>, the in-place block), one checked fragment per case composed from the translated pvSetHashProbe / "
-                   "pvCalcShortHash, are proved equal to the model step P4.Bucket.addCrt (C12_limp4_addCrt_translated)."),
+                   "pvCalcShortHash, are proved equal to the model step P4.Bucket.addCrt (C12_limp4_addCrt_translated)."
+                   " Third wave (tools/trspecs/Wave3.py, Proof/TrEqWave3.lean): the class constants hashCodeShift / maskEmpty / emptyHashProbe of BucketLimP4, "
+                   "hashCodeShift of BucketOpen2N2 and BucketLimP4::WasFull as translated are the model's (C12_limp4_constants_translated, C12_open2n2_hashCodeShift_translated, "
+                   "C12_limp4_WasFull_translated); BucketLim4 maxCount / pvGetMemPoolIndex(), BucketOne hashCodeShift and UIntMath::DivByConst compute the plain arithmetic (C12_lim4_arith_translated)."),
     "level_note": ("Trusted: Lean kernel, the three standard axioms, extractor, correspondence harness (g++, -fno-access-control). Modelled not "
                    "verified: the C++ byte layout of mShortHashes/mHashData/mHashState and the pointer-state bits; that HashSet::pvRelocateItems "
                    "passes (bucket index, old log, new log) as modelled and that growth is strict (MOMO_CHECK(shift > 0)) is read off the source "
@@ -47,6 +50,10 @@ PROP = {
         "Momo.HashMeta.C12_still_found_translated",
         "Momo.HashMeta.C12_limp4_meta_translated",
         "Momo.HashMeta.C12_limp4_addCrt_translated",
+        "Momo.HashMeta.C12_limp4_constants_translated",
+        "Momo.HashMeta.C12_open2n2_hashCodeShift_translated",
+        "Momo.HashMeta.C12_limp4_WasFull_translated",
+        "Momo.HashMeta.C12_lim4_arith_translated",
     ],
     "harnesses": [
         {"name": "c12_hashmeta", "src": "c12_hashmeta.cpp"},
